@@ -463,6 +463,7 @@ func runC19(r *core.Run) {
 			var next []qe
 			for _, e := range frontier {
 				if r.Expired() {
+					r.Note(fmt.Sprintf("C19 BFS (%s): deadline reached at level %d after expanding %d states; histories of length <= %d are covered completely by this shard", env, lvl, expanded, lvl))
 					return
 				}
 				if expanded >= maxStates {
